@@ -264,6 +264,8 @@ class History:
         else:
             masked = [("L", "id=*", t[2]) if t[0] == "L" and t[1].startswith("id=") else t for t in canon]
             self.toks.append("ok " + A.enc_tokens(masked))
+            # the Lean tokenizer (the one the character-level theorems are about) against term.py on the real characters
+            self.ctx.case("c03_tokenize", [enc_str(out)], A.enc_tokens(canon), shape=self.label)
         it = A.Interp().feed(tokens)
         if canon is not None:
             self.cells.append("ok " + A.enc_cells(it.cells) + "!" + A.enc_look(it.state()))
@@ -276,7 +278,7 @@ class History:
 
     exp_ok = True
 
-    def expected_cells(self, cfg, segs, stale=False, ctl=False):
+    def expected_cells(self, cfg, segs, stale=False, ctl=False, shown=False):
         """the oracle's expected cells of `_render_buffer(segs)`; `stale`: colours as for each object's first colour
         system; `ctl`: styled control segments count as visible (the two classifier variants).  None: ill-formed colour."""
         cs, nc, t, lw = cfg
@@ -291,7 +293,7 @@ class History:
             look = A.expected_look(style, use, nc, lw)
             if look is None:
                 return None
-            cells.extend((ch, look) for ch in text)
+            cells.extend((ch, look) for ch in (A.shown(text)[0] if shown else text))
         return cells
 
     def write(self, cfg, segs, mode, route=0, console=None, action=None, tag=""):
@@ -351,23 +353,26 @@ class History:
             return
         ctx.note("cs%d" % cs)
         ctx.note("segs%d" % min(len(segs), 5))
-        # ---- direct evaluation of the property on the real output
-        if exp is not None and texts_clean:
-            ok = it.cells == exp and it.foreign == 0
+        # ---- direct evaluation of the property on the real output (escape sequences inside control texts are executed
+        #      by the terminal, not shown: `shown` keeps the characters around them)
+        if exp is not None:
+            vis = exp if texts_clean else self.expected_cells(cfg, segs, shown=True)
+            foreign = 0 if texts_clean else sum(A.shown(tx)[1] for tx, h, c in segs if (t or not c))
+            ok = it.cells == vis and it.foreign == foreign
             finding = None
-            if it.cells != exp:
-                if it.cells == self.expected_cells(cfg, segs, stale=True):
+            if it.cells != vis:
+                if it.cells == self.expected_cells(cfg, segs, stale=True, shown=True):
                     finding = SLUG_STALE
-                elif it.cells == self.expected_cells(cfg, segs, ctl=True):
+                elif it.cells == self.expected_cells(cfg, segs, ctl=True, shown=True):
                     finding = SLUG_CTL
-                elif it.cells == self.expected_cells(cfg, segs, stale=True, ctl=True):
+                elif it.cells == self.expected_cells(cfg, segs, stale=True, ctl=True, shown=True):
                     finding = SLUG_STALE
-            ctx.check(ok, site + ":stream_means_segments", self.describe(), "interpreting the output gives %s, the segments say %s (output %r)" % (
-                A.enc_cells(it.cells), A.enc_cells(exp), out), finding=finding)
+            ctx.check(ok, site + ":stream_means_segments", self.describe(), "interpreting the output gives %s (%d other sequences), the segments say %s (%d) (output %r)" % (
+                A.enc_cells(it.cells), it.foreign, A.enc_cells(vis), foreign, out), finding=finding)
             ctx.check(it.state() == A.PLAIN, site + ":no_leak", self.describe(), "the terminal is left in state %s after the write (output %r)" % (A.enc_look(it.state()), out))
-        if texts_clean:
-            if cs == 0:
-                ctx.check("\x1b" not in out, site + ":colour_none_no_escape", self.describe(), "colour is disabled and the output contains ESC: %r" % out)
+        if cs == 0 and texts_clean:
+            ctx.check("\x1b" not in out, site + ":colour_none_no_escape", self.describe(), "colour is disabled and the output contains ESC: %r" % out)
+        if True:
             if nc:
                 bad = [p for tk in term.tokenize(out) if tk[0] == "SGR" for p in tk[1] if p not in ATTR_CODES and p != 0]
                 ctx.check(not bad, site + ":no_color_no_colour_params", self.describe(), "NO_COLOR and the output has SGR parameters %r: %r" % (bad, out))
@@ -577,7 +582,7 @@ def run(ctx):
     rng = ctx.rng
     consoles = Consoles()
     ctx.assumptions += [
-        "string <-> token serialisation (digits, ';', ESC) is validated by c03_chars / c03_toks, and proved only in the direction the theorems need (serialise; no ESC in, no ESC out)",
+        "string <-> token serialisation: proved (tokenize_reads_back) for texts without ESC and links without ESC / BEL; additionally validated by c03_chars / c03_toks / c03_tokenize",
         "the random OSC 8 link id is masked (id=*) on both sides",
         "dict lookup in Segment.remove_color is lookup by == (Style.__hash__ agrees with __eq__: property C06)",
         "colour conversion is C18's model with C18's float parameter (satExc)",
@@ -590,6 +595,7 @@ def run(ctx):
     # ---- I. the two independent interpreters against each other on arbitrary SGR / OSC 8 streams (every parameter
     #         0..110 alone and after "everything on", extended colours well- and ill-formed, clears, empty sequences)
     _interpreter_cross_check(ctx)
+    _tokenizer_cross_check(ctx)
     # ---- E1. every attribute x {on, off} x every console configuration (exhaustive)
     for i, a in enumerate(A.ATTRS):
         for val in (True, False):
@@ -652,6 +658,39 @@ def run(ctx):
                     h.write((cs2, 0, 1, 0), [("b", t, False), ("c", s, False)], mode=cs2 % 4, route=(via + 1) % 2)
                     h.write((cs2, 1, 1, 0), [("d", t, False), ("e", s, False)], mode=0)
                     h.finish()
+    # ---- E4b. derivation chains on objects that have ALREADY been rendered: the result of `+`, without_color,
+    #           background_style is a new object and must not inherit codes; copy() / update_link() inherit them soundly
+    rights = [lambda: Style(color="#00ff00"), lambda: Style(bgcolor="color(200)"), lambda: Style(color="blue", bgcolor="#102030"),
+              lambda: Style(italic=True), lambda: Style(link="http://r"), lambda: Style(bold=False), lambda: Style.null()]
+    for li, mk in enumerate(kinds):
+        for ri, mkr in enumerate(rights):
+            for cs1, cs2 in ((3, 3), (3, 1), (1, 2), (2, 3)):
+                for chain in range(8):
+                    h = hist("E4b-chains")
+                    a = h.new(mk())
+                    b = h.handle(mkr(), "right")
+                    h.write((cs1, 0, 1, 0), [("a", a, False), ("b", b, False)], mode=(li + ri) % 3)
+                    if chain == 0:
+                        t = h.add(a, b)
+                    elif chain == 1:
+                        t = h.add(b, a)
+                    elif chain == 2:
+                        t = h.copy(h.add(a, b))
+                    elif chain == 3:
+                        t = h.add(h.copy(a), b)
+                    elif chain == 4:
+                        t = h.add(h.update_link(a, "http://u"), b)
+                    elif chain == 5:
+                        t = h.add(h.without_color(a), b)
+                    elif chain == 6:
+                        t = h.update_link(h.add(a, b), None)
+                    else:
+                        t = h.handle(Style.chain(h.objs[a], h.objs[b], h.objs[a]), "chain(a,b,a)")
+                    h.write((cs2, 0, 1, 0), [("x", t, False), ("y", a, False), ("z", b, False)], mode=(chain + ri) % 3)
+                    u = h.add(t, b)
+                    h.style_render(u, "w", cs2, 0)
+                    h.write((cs2, 1, 1, 0), [("v", t, False)], mode=0)
+                    h.finish()
     # ---- E5. control segments x style kind x configuration
     for cfg in all_cfgs():
         for text in ["ctl", "\x1b[2J", ""]:
@@ -681,6 +720,9 @@ def run(ctx):
                     h.finish()
     # ---- M. one console object, changing target / NO_COLOR / legacy_windows between writes
     _mutable_console_histories(ctx, consoles)
+    # ---- T. styles shared through themes;  K. the crop path of console.print on narrow consoles
+    _theme_histories(ctx, consoles)
+    _crop_histories(ctx, consoles)
     # ---- E6. through the public API only: Style.parse (lru_cache shared by every console) + console.print(Text)
     _public_api_histories(ctx, consoles)
     # ---- E7. the error branches: ill-formed Color objects
@@ -749,10 +791,14 @@ def run(ctx):
                 h.write(cfg, segs, mode, route=int(rng.random() < 0.3))
         h.finish()
     ctx.flush()
+    _annotate_mismatches(ctx)
     ctx.rule = (
         "histories over shared Style objects: exhaustive 13 attributes x {on,off} x all 40 console configurations; all attribute pairs; "
         "%d colour classes x fg/bg x 5 colour systems x NO_COLOR; cache sequences for all 25 ordered pairs of colour systems x {same object, copy, update_link, Style.render}; "
         "control segments x 5 style kinds x 40 configurations; public-API histories (Style.parse lru_cache + console.print(Text)); ill-formed colours; "
+        "derivation chains (+, copy, update_link, without_color, chain) on already-rendered objects; one console with changing target / NO_COLOR / "
+        "legacy_windows; theme-shared styles through 4 public routes x 8 colour-system orders; console.print crop path on narrow consoles; "
+        "Lean tokenizer vs term.py on every clean real stream and on synthetic SGR / OSC 8 streams; "
         "then %d seeded random histories from the full product (13 tri-state attributes x 6 colour kinds x fg/bg x link x construction route). "
         "distinct = distinct (view, history) requests" % (len(reps) - 1, n_hist)
     )
@@ -816,6 +862,192 @@ def _mutable_console_histories(ctx, consoles):
                     h.write(cfg, rand_segs(rng, len(h.objs), clean_only=rng.random() < 0.6), rng.randrange(3), console=mc.con, tag=tag)
         h.finish()
     ctx.flush()
+
+
+def _theme_histories(ctx, consoles):
+    """Styles shared through a THEME: the default theme's Style objects are handed to every console of the process, a
+    custom Theme object can be given to several consoles; `get_style(name)`, `print(..., style=name)`, markup tags and
+    `Text(style=name)` all end up with the theme's own object in the segments."""
+    from rich import themes
+    from rich.console import Console
+    from rich.segment import Segment
+    from rich.style import Style
+    from rich.text import Text
+    from rich.theme import Theme
+
+    custom = Theme({"warn": "bold #ff8800", "note": "italic color(100) on #101010", "lnk": "underline #00aaff link http://t",
+                    "plain": "none", "neg": "not bold red"})
+    dstyles = getattr(themes.DEFAULT, "styles", {})
+    rich_colours = sorted(n for n, st in dstyles.items() if isinstance(st, Style) and any(c is not None and int(c.type) in (2, 3) for c in (st.color, st.bgcolor)))[:6]
+    plain_colours = [n for n in ("repr.number", "rule.line", "logging.level.warning") if n in dstyles]
+    plans = [(custom, list(custom.styles)), (None, rich_colours + plain_colours)]
+    kinds = [
+        ("print(Text('x', style=%r, end=''))", lambda c, n: c.print(Text("x", style=n, end=""))),
+        ("print('x', style=%r, end='')", lambda c, n: c.print("x", style=n, end="", markup=False, highlight=False, emoji=False)),
+        ("print('[%s]x', end='')", lambda c, n: c.print("[%s]x" % n, end="", markup=True, highlight=False, emoji=False)),
+        ("print(Segment('x', get_style(%r)))", lambda c, n: c.print(SegsRenderable([Segment("x", c.get_style(n))]), crop=False)),
+    ]
+    orders = [(3, 1), (3, 2), (2, 1), (1, 3), (3, 4), (2, 4), (4, 3), (3, 0)]
+    k = 0
+    for theme, names in plans:
+        cons = {}
+        for cs in range(5):
+            for nc in (0, 1):
+                cons[(cs, nc)] = Console(file=io.StringIO(), force_terminal=True, color_system=CS_NAMES[cs], no_color=bool(nc), legacy_windows=False,
+                                         width=WIDTH, _environ={}, theme=theme)
+        for name in names:
+            base = (theme.styles if theme is not None else dstyles).get(name)
+            if base is None:
+                continue
+            for cs1, cs2 in orders:
+                k += 1
+                h = History(ctx, consoles, "T-theme")
+                b = h.handle(base, "theme[%r]" % name)
+                for cs, nc in ((cs1, 0), (cs2, 0), (cs2, 1), (cs1, 0)):
+                    con = cons[(cs, nc)]
+                    con.file = io.StringIO()
+                    label, call = kinds[k % len(kinds)]
+                    k += 1
+                    obj = h.copy(b) if base.link else b   # Console.get_style: `style.copy() if style.link else style`
+                    h.write((cs, nc, 1, 0), [("x", obj, False)] if True else [], 4, console=con,
+                            action=(label % name, (lambda c, call=call, name=name: call(c, name))), tag="#theme")
+                h.finish()
+    ctx.flush()
+
+
+def _crop_histories(ctx, consoles):
+    """`console.print` with crop=True (the default) on narrow consoles: long lines, multi-line texts, wide characters.
+    What reaches the buffer is `Segment.split_and_crop_lines(segments, width, pad=False)` (property C13 owns that function;
+    here it is the specification of the glue), and that is what must be written."""
+    from rich.console import Console
+    from rich.segment import Segment
+    from rich.style import Style
+    from rich.text import Text
+
+    rng = ctx.rng
+    texts = ["a" * 30, "ab\ncd", "line1\nline two is long long long\n", "あ" * 10, "x\n\ny", "tab\there", "", "short", "a b c d e f g h i j k l m n",
+             "\n", "é" * 13, "12345678901\n2", "wide😽😽😽😽😽😽😽end"]
+    n = 120 if ctx.quick else 4000
+    cons = {}
+    for i in range(n):
+        cfg = rand_cfg(rng)
+        width = rng.choice([5, 12, 12, 20])
+        key = (cfg, width)
+        con = cons.get(key)
+        if con is None:
+            cs, nc, t, lw = cfg
+            con = cons[key] = Console(file=io.StringIO(), force_terminal=bool(t), color_system=CS_NAMES[cs], no_color=bool(nc), legacy_windows=bool(lw),
+                                      width=width, _environ={}, markup=False, emoji=False, highlight=False)
+        con.file = io.StringIO()
+        h = History(ctx, consoles, "K-crop")
+        for _ in range(rng.randint(1, 3)):
+            st, how = rand_style(rng)
+            h.new(st, how)
+        if i % 3 == 2:
+            # a Text with spans, wrapped by rich: the segments are whatever console.render produces
+            txt = Text(rng.choice(texts) + " " + rng.choice(texts), style=h.objs[0])
+            for _ in range(rng.randint(0, 2)):
+                a = rng.randint(0, max(0, len(txt) - 1))
+                txt.stylize(h.objs[rng.randrange(len(h.objs))], a, a + rng.randint(1, 12))
+            renderable = txt
+            try:
+                real = list(con.render(txt))
+            except BaseException as e:  # noqa: BLE001
+                if isinstance(e, (KeyboardInterrupt, SystemExit)):
+                    raise
+                ctx.check(False, "console.render", repr(txt), f"raised {type(e).__name__}")
+                continue
+        else:
+            real = []
+            for _ in range(rng.randint(1, 4)):
+                control = rng.random() < 0.15
+                hh = rng.randrange(len(h.objs)) if rng.random() < 0.8 else None
+                real.append(Segment(rng.choice(CTL_PLAIN + ["c\nd"]) if control else rng.choice(texts), None if hh is None else h.objs[hh], control))
+            renderable = SegsRenderable(real)
+        try:
+            lines = list(Segment.split_and_crop_lines(list(real), con.width, pad=False))
+        except BaseException as e:  # noqa: BLE001
+            if isinstance(e, (KeyboardInterrupt, SystemExit)):
+                raise
+            ctx.check(False, "split_and_crop_lines", repr(real), f"raised {type(e).__name__}")
+            continue
+        segs = [(sg.text, None if sg.style is None else h.handle(sg.style, "rendered"), bool(sg.is_control)) for line in lines for sg in line]
+        h.write(cfg, segs, 4, console=con, action=("print(<%d segments, width %d>)" % (len(real), width), lambda c, r=renderable: c.print(r)), tag="#w%d" % width)
+        h.finish()
+    ctx.flush()
+
+
+def _tokenizer_cross_check(ctx):
+    """The Lean tokenizer (`AnsiTerm.tokenize`, about which `tokenize_reads_back` is proved) against the independent
+    term.py tokenizer on synthetic streams: SGR with empty / zero-padded / many parameters, OSC 8 terminated by ST or
+    BEL, text containing digits, ';', 'm', '[', ']' and C0 controls."""
+    rng = ctx.rng
+    pieces = ["x", "ab", "1;2", "m", "[0m", "]8;;", "\n", "\t", "é", "😽", ";", "0", "\\", "8;"]
+    sgrs = ["", "0", "1", "01", "1;31", ";", ";1", "1;", "38;5;196", "38;2;1;2;3;48;5;0", "000", "4;;5", "107", "21;51;52;53"]
+    def osc(rng):
+        params = rng.choice(["", "id=1.5-7", "id=*", "a=b:c=d"])
+        uri = rng.choice(["", "http://x", "a;b;c", "file:///p q", "ü"])
+        return "\x1b]8;%s;%s%s" % (params, uri, rng.choice(["\x1b\\", "\x07"]))
+    def go(sx, shape):
+        canon = A.canon_tokens(term.tokenize(sx))
+        if canon is None:
+            ctx.note("tokenizer-foreign")
+            return
+        ctx.case("c03_tokenize", [enc_str(sx)], A.enc_tokens(canon), shape=shape, sample="tokenize(%r)" % sx)
+    for p in sgrs:
+        go("\x1b[%sm" % p, "W-sgr")
+        go("a\x1b[%smb\x1b[0m" % p, "W-sgr")
+    for _ in range(1500 if ctx.quick else 30000):
+        parts = []
+        for _ in range(rng.randint(1, 8)):
+            r = rng.random()
+            if r < 0.4:
+                parts.append(rng.choice(pieces))
+            elif r < 0.75:
+                parts.append("\x1b[%sm" % rng.choice(sgrs))
+            else:
+                parts.append(osc(rng))
+        go("".join(parts), "W-random")
+    ctx.flush()
+
+
+def _annotate_mismatches(ctx):
+    """For every disagreement in the characters written, say whether the MEANING differs too: both streams are read by
+    term.py and the Python interpreter.  The note lands in the replay file ("meaning preserved, bytes differ" = the code
+    writes other bytes than the model for a stream a terminal shows identically)."""
+    from core import dec_str
+
+    stats = {"meaning preserved, bytes differ": 0, "meaning differs": 0, "raises or stops": 0}
+    for m in ctx.mismatches:
+        if not m["request"].startswith("c03_chars\t"):
+            continue
+        a, b = m["model"].split("~"), m["impl"].split("~")
+        note = None
+        if len(a) != len(b):
+            note = "raises or stops"
+        else:
+            for x, y in zip(a, b):
+                if x == y:
+                    continue
+                if not (x.startswith("ok ") and y.startswith("ok ")):
+                    note = "raises or stops"
+                    break
+                ix = A.Interp().feed(term.tokenize(dec_str(x[3:])))
+                iy = A.Interp().feed(term.tokenize(dec_str(y[3:])))
+                same = ix.cells == iy.cells and ix.state() == iy.state() and ix.foreign == iy.foreign
+                if not same:
+                    note = "meaning differs"
+                    break
+                note = "meaning preserved, bytes differ"
+        if note:
+            m["note"] = note
+            stats[note] += 1
+    ctx.mismatches.sort(key=lambda m: 0 if "note" in m else 1)   # the annotated ones first: the replay file shows the first ten
+    if any(stats.values()):
+        ctx.extra_cov["c03_character_mismatches_by_meaning"] = stats
+        for k2, v2 in stats.items():
+            if v2:
+                ctx.note("MISMATCH-MEANING:" + k2, v2)
 
 
 def _interpreter_cross_check(ctx):
@@ -922,29 +1154,33 @@ def replay(ctx, case):
 MANIFEST = {
     "text": "Lean 4 theorems (Props/C03.lean; no bound on the number or length of segments, the number of Style objects or the length of a "
     "history; styles are not enumerated) about an executable model of Style._make_ansi_codes (with the per-object _ansi cache as explicit "
-    "state), Style.render, Segment.remove_color and Console._render_buffer, decoded by an independent SGR / OSC 8 interpreter written from "
-    "ECMA-48 / xterm (Model/AnsiTerm.lean). codes_mean_style: for every well-formed style and colour system the generated parameter string, "
-    "interpreted from the default rendition, switches on exactly the attributes that are set and true and selects the down-converted "
-    "foreground / background (C18's downgrade). stream_means_segments / no_leak / following_text_unaffected: for every configuration "
-    "(colour system None|standard|256|truecolor|windows x NO_COLOR x terminal x legacy Windows), every heap of shared Style objects with sound "
-    "caches and every segment list, interpreting what _render_buffer wrote gives exactly the characters to be shown, each with the attributes, "
-    "colours and hyperlink of its style, and the terminal is left in its default state. history_means_segments: the same over every history of "
-    "new styles, copy(), update_link(), _render_buffer on consoles of changing configuration and direct Style.render calls (the cache is state; "
-    "invariant: every cache entry is what would be computed afresh for the colour system it is tagged with). colour_none_no_escape, "
-    "no_color_no_colour_params hold for both code variants; not_terminal_no_control at the level of what is shown, and token-for-token outside "
-    "the NO_COLOR path (_partial). Proved for the repaired code, which is what /repo contains now (fixes c9ec5a8, 23674a1); old_stale_ansi_cache / "
-    "old_history_violates / old_styled_control_written / old_not_terminal_violates are machine-checked witnesses that rich 9.10.0 as found "
-    "(before those fixes) violated them. Tie: ~27k (quick) / ~600k (thorough) requests per run, each a whole history "
-    "executed on real rich (Console._render_buffer, console.print, console.capture, Style.render; consoles built explicitly and through the "
-    "option handling of Console.__init__ — NO_COLOR, isatty, colour system 'auto' from TERM/COLORTERM) and on the model, compared in four views "
-    "(characters, tokens, interpreter run, specification), plus the theorems' executable statements evaluated on rich's own output with a "
-    "second, table-driven Python interpreter and an oracle that computes the down-conversion from the raw palettes.",
-    "note": "Partial: the theorems are about tokens; token <-> character serialisation (decimal digits, ';', ESC, OSC 8 framing) is defined "
-    "(AnsiTerm.serialise) and validated on every run by exact comparison of the characters written (c03_chars) and by tokenising the real "
-    "output with harness/term.py (c03_toks); it is proved only as far as 'no ESC in, no ESC out' for colour None. not_terminal_no_control is "
-    "token-level only outside the NO_COLOR path. Assumed / parameters: C18's colour model incl. its float parameter satExc; Style.__hash__ "
-    "agrees with __eq__ (C06) so the dict in remove_color is lookup by ==; the random link id is masked; legacy_windows only as the flag the "
-    "code branches on; jupyter and real Windows consoles are outside the model. Trusted: Lean kernel; axioms propext/Classical.choice/Quot.sound; "
-    "translator for the palettes; the correspondence harness (generators, term.py tokenizer, lib_c03.Interp).",
+    "state), Style.render, Segment.remove_color and Console._render_buffer, decoded by an independent terminal model written from ECMA-48 / "
+    "xterm / OSC 8 (Model/AnsiTerm.lean: a character-level tokenizer `tokenize` and an SGR / hyperlink interpreter `interp`). "
+    "stream_means_segments_chars — the property's own words: for every configuration (colour system None|standard|256|truecolor|windows x "
+    "NO_COLOR x terminal x legacy Windows), every heap of shared Style objects with sound caches and every segment list without ESC in its "
+    "texts, the CHARACTERS _render_buffer returns, read by the terminal's tokenizer and interpreted from the default state, are exactly the "
+    "characters to be shown, each with the attributes that are set and true, the down-converted colours (C18's downgrade) and the hyperlink "
+    "of its style, and the terminal is left in its default state (no leak). history_means_segments(_chars): the same over every history of new "
+    "styles, copy(), update_link(), _render_buffer on consoles of changing configuration and direct Style.render calls (the cache is state; "
+    "invariant: every cache entry is what would be computed afresh for the colour system it is tagged with). tokens_are_cache_free: the output "
+    "is token for token that of brand-new objects. tokenize_reads_back: the wire format (decimal digits, ';', ESC [ .. m, OSC 8 with ST / BEL) "
+    "reads back for every well-formed token list. colour_none_no_escape and no_color_no_colour_params hold for both code variants; "
+    "not_terminal_no_control(_tokens): on a non-terminal control segments are as if absent, token for token in every configuration. "
+    "raises_only_for_ill_formed_colour: _render_buffer raises only with colour on, NO_COLOR off and an ill-formed Color object in the heap. "
+    "old_stale_ansi_cache / old_history_violates / old_styled_control_written are machine-checked witnesses that rich 9.10.0 as found violated "
+    "the statements (fixed in c9ec5a8, 23674a1). Tie: ~70k (quick) / ~1M (thorough) requests per run; each history is executed on real rich "
+    "(Console._render_buffer, console.print with and without crop, console.capture, Style.render, bell/clear/show_cursor/control; consoles built "
+    "explicitly and through the option handling of Console.__init__; ONE console whose target file / isatty / NO_COLOR / legacy_windows change "
+    "between writes; styles shared through the Style.parse cache, through themes, and through +/copy/update_link/without_color chains on "
+    "already-rendered objects) and on the model, compared in five views (characters, tokens, interpreter run, specification, Lean tokenizer "
+    "on the real characters vs term.py), plus the theorems' executable statements evaluated on rich's own output with a second, table-driven "
+    "Python interpreter and an oracle that computes the down-conversion from the raw palettes.",
+    "note": "Hypotheses of the character-level theorems: no ESC in segment texts, no ESC / BEL in links (NoEscIn / OpsClean) — control "
+    "segments that carry escape sequences are covered at token level and by the correspondence only. Assumed / parameters: C18's colour "
+    "model incl. its float parameter satExc; Style.__hash__ agrees with __eq__ (C06) so the dict in remove_color is lookup by ==; the random "
+    "link id is masked; legacy_windows only as the flag the code branches on; jupyter and real Windows consoles are outside the model; the "
+    "crop path of console.print is tied with Segment.split_and_crop_lines (C13) as its specification. A disagreement in bytes that a terminal "
+    "shows identically is reported as no-failing-input-found with the note 'meaning preserved, bytes differ'. Trusted: Lean kernel; axioms "
+    "propext/Classical.choice/Quot.sound; translator for the palettes; the correspondence harness (generators, term.py, lib_c03.Interp).",
     "design_ref": "DESIGN.md section 7, C03",
 }
